@@ -1,5 +1,6 @@
 import TypstyleModel.Proofs.Strip
 import TypstyleModel.Props.C11
+import TypstyleModel.Proofs.Import
 /-! C03 — convergence (partial).  The end-to-end statement `format (format x) = format x` needs
 the parser (`parse ∘ render`), which is not modelled (DESIGN.md §4 C03).  Proved here: the parts of
 the pipeline whose fixed-point behaviour is parser-free. -/
@@ -9,5 +10,18 @@ namespace Typstyle
 theorem C03_strip_idempotent (x : String) : strip (strip x) = strip x := by
   apply String.ext
   rw [strip_toList, strip_toList, stripL_idem]
+
+/-- T3.2 (import reordering converges): the sort key of an import item depends only on the item's
+*words* (its text split at white space), so re-spacing an item — all the printer does to it — leaves
+its key unchanged (finding F45 was that the key was the source text itself) … -/
+theorem C03_import_key_ignores_spacing (a b : ANode)
+    (h : wordsL a.intoText.toList = wordsL b.intoText.toList) : importSortKey a = importSortKey b := by
+  unfold importSortKey
+  rw [h]
+
+/-- … and sorting a sorted list is the identity, so a second pass orders the items as the first did. -/
+theorem C03_import_sort_is_idempotent (nodes : List ANode) :
+    stableSort importSortKey (stableSort importSortKey nodes) = stableSort importSortKey nodes :=
+  stableSort_idem importSortKey nodes
 
 end Typstyle
